@@ -138,6 +138,40 @@ theorem pic_corollary (b1 b2 : Int) (ws : List WordSrc) (h : ∀ w ∈ ws, ∃ v
   obtain ⟨v, rfl⟩ := h w hw
   rfl
 
+/-! ### exactly the absolute words move; bases that wrap -/
+
+/-- a word holding any affine value (`2*label`, `label + label − K`, …) moves by its
+    coefficient times the difference of the bases, modulo 2¹⁶ -/
+theorem affine_word_moves (l : Lin) (b1 b2 : Int) :
+    (l.valueAt b2) % 65536 = ((l.valueAt b1) % 65536 + l.coef * (b2 - b1)) % 65536 := by
+  simp only [valueAt, Int.mul_sub]
+  generalize l.coef * b2 = x
+  generalize l.coef * b1 = y
+  omega
+
+/-- an absolute address word really moves: at two bases that differ modulo 2¹⁶ it holds two
+    different words (so the words that `reloc_law` says move are exactly the ones that do) -/
+theorem absolute_word_differs (l : Lin) (h : l.coef = 1) (b1 b2 : Int) (hb : b1 % 65536 ≠ b2 % 65536) :
+    (l.valueAt b1) % 65536 ≠ (l.valueAt b2) % 65536 := by
+  simp only [valueAt, h, Int.one_mul]
+  omega
+
+/-- and at bases that agree modulo 2¹⁶ (a base "wrapped through 0o177777") the whole image
+    is the same -/
+theorem wrapped_base_same_image (b1 b2 : Int) (hb : b1 % 65536 = b2 % 65536) (ws : List WordSrc) :
+    render b1 ws = render b2 ws := by
+  unfold render
+  apply List.map_congr_left
+  intro w _
+  cases w with
+  | fixed v => rfl
+  | absolute off =>
+    simp only [renderWord]
+    congr 1
+    omega
+
+example : render 0o1000 [.fixed 1, .absolute 6] = render (0o1000 + 65536) [.fixed 1, .absolute 6] := by decide
+
 /-! ### non-vacuity -/
 -- `K + end − start` with start at offset 4 and end at offset 20: the base cancels
 example : toLin (.add (.num 0o1000) (.sub (.address 20) (.address 4))) = ⟨0, 0o1000 + 16⟩ := by decide
